@@ -2,6 +2,7 @@
 C03 — Operators compute exact, correctly typed results or a typed error.
 -/
 import EvalexprVerif.Spec.RefArith
+import EvalexprVerif.Proofs.AgreeFnOperator
 
 set_option linter.unusedSimpArgs false
 
@@ -91,6 +92,16 @@ theorem C03_unary (op : UnOp) (a : Value) (s : St) :
   all_goals
     simp [UnOp.toOperator, Operator.eval, Operator.evalPure, refUnary, Meets, Value.asNumber,
       Value.asBoolean, isArithError, isTypeError, Except.map]
+
+/-! ### about the code as translated on this run
+`Gen.Operator.eval` is the body of `Operator::eval` (src/operator/mod.rs) rendered by `translate_fn.py`; by
+`fn_Operator_eval_agree` the two main theorems are statements about that text. -/
+theorem C03_binary_generated (op : BinOp) (a b : Value) (s : St) :
+    Meets (Gen.Operator.eval op.toOperator [a, b] s).1 (refBinary op a b) := by
+  rw [AgreeFn.fn_Operator_eval_agree]; exact C03_binary op a b s
+theorem C03_unary_generated (op : UnOp) (a : Value) (s : St) :
+    Meets (Gen.Operator.eval op.toOperator [a] s).1 (refUnary op a) := by
+  rw [AgreeFn.fn_Operator_eval_agree]; exact C03_unary op a s
 
 /-- the value an in-range integer result denotes is the exact mathematical result -/
 theorem exactInt_value (z : Int) (v : Value) (h : exactInt z = .value v) :
